@@ -2,7 +2,7 @@ from _common import COMMON_NOTE
 
 META = {
  'title': 'Frames last 69888/70908 T with a 32-T INT pulse; no T-state is ever lost',
- 'lean_modules': ['ZxVerif.Props.C05', 'ZxVerif.Props.C04X', 'ZxVerif.Props.C05Sys', 'ZxVerif.Props.C05Prog'],
+ 'lean_modules': ['ZxVerif.Props.C05', 'ZxVerif.Props.C04X', 'ZxVerif.Props.C05Sys', 'ZxVerif.Props.C05Prog', 'ZxVerif.Props.C05Halt'],
  'extract': ['Machine', 'Contended'],
  'modelled_code': ['rustzx-core/src/zx/controller.rs (wait_internal clock part, new_frame, int_active, frames_count)',
                    'rustzx-core/src/zx/machine/mod.rs + specs.rs (clocks_frame, interrupt_length)',
@@ -14,7 +14,7 @@ META = {
  'design_ref': 'DESIGN.md section 8, C05',
  'technique': 'Lean 4 proof: time-conservation invariant by induction over wait lists, INT window characterisation; tied to the code by differential clock runs and real counting/interrupt programs',
  'level_text': 'Theorems in Lean 4 over every list of bus waits on both machines: frames*L + offset = sum of waits, offset stays inside the frame, overrun carried, INT asserted iff offset < 32 (i.e. iff total time mod L < 32). Tied to the Rust code on every run by driving the real wait_internal with random wait sequences (exact comparison after every wait) and by real Z80 programs under emulate_frames (T-state accounting of a counting loop over 1..14 frames with different call slicings; IM 2 interrupt counters; INT-window sweep).'
-               ' Whole-program form (Props/C05Prog): in every state a program can reach from reset the frame offset lies inside the frame, a maskable interrupt is accepted only in the first 32 T-states of a frame, and the INT line is asserted exactly while time since reset mod frame length < 32.',
+               ' Whole-program form (Props/C05Prog): in every state a program can reach from reset the frame offset lies inside the frame, a maskable interrupt is accepted only in the first 32 T-states of a frame, and the INT line is asserted exactly while time since reset mod frame length < 32. Liveness (Props/C05Halt.halt_wakes): a CPU waiting in HALT with interrupts enabled has the interrupt of the next frame accepted at a boundary less than 10 T-states after the frame start, by induction on the distance to the frame end (each halted turn costs 4..10 T-states and cannot step over the 32-T window).',
 
  'level_note': COMMON_NOTE + ' No bv_decide in this property.',
 }
